@@ -249,10 +249,22 @@ def run_pool(order, modname, tier, jobs, limit):
 
     for slot in range(jobs):
         spawn(slot)
-    for item in order:
-        task_q.put(item)
-    for _ in range(jobs):
-        task_q.put(None)
+    # Feed incrementally (a few units per worker in flight): putting every unit
+    # up front can fill the pipe while workers block on a full result pipe.
+    feed = iter(order)
+    sentinels = [0]
+
+    def feed_one():
+        item = next(feed, None)
+        if item is None:
+            if sentinels[0] < jobs:
+                sentinels[0] += 1
+                task_q.put(None)
+        else:
+            task_q.put(item)
+
+    for _ in range(jobs * 2):
+        feed_one()
     pending = len(order)
     results = []
     hangs = []
@@ -266,6 +278,7 @@ def run_pool(order, modname, tier, jobs, limit):
                 current.pop(msg[1], None)
                 results.append(msg[2])
                 pending -= 1
+                feed_one()
             elif msg[0] == "hang":
                 _, slot, case, secs = msg
                 hangs.append({"unit": current.get(slot), "case": case, "seconds": round(secs, 1)})
@@ -281,10 +294,13 @@ def run_pool(order, modname, tier, jobs, limit):
                     pending -= 1
                     if not any(h["unit"] == idx for h in hangs):
                         hangs.append({"unit": idx, "case": None, "seconds": None, "exitcode": p.exitcode})
-                    task_q.put(None)
                     spawn(slot)
+                    feed_one()
                 else:
                     exited.add(slot)
+    while sentinels[0] < jobs:
+        sentinels[0] += 1
+        task_q.put(None)
     for p in procs.values():
         p.join(5)
         if p.is_alive():
